@@ -101,6 +101,7 @@ func runLzCase(r *Result, dp *DriverPool, prop string, cs lzCase, plain bool) {
 			off += k
 		}
 		runW1Model(r, dp, w1Case{Op: "writer1-history", Cfg: c, Writes: ws})
+		runW1Auto(r, dp, w1Case{Op: "writer1-history", Cfg: c, Writes: ws})
 	}
 	g := goLzmaRead(w.Out, 0, 60*time.Second)
 	goOK := g.Err == "EOF" && !g.OpenErr && bytes.Equal(g.Out, data)
@@ -193,6 +194,7 @@ func sizeContract(r *Result, dp *DriverPool, rng *rand.Rand, n int) {
 				ws = append(ws, "-")
 			}
 			runW1Model(r, dp, w1Case{Op: "writer1-history", Cfg: c, Writes: ws})
+		runW1Auto(r, dp, w1Case{Op: "writer1-history", Cfg: c, Writes: ws})
 		}
 		if !c.SizeInHeader && size == 0 {
 			continue // no explicit size configured
